@@ -413,7 +413,7 @@ class SQLGenerator:
 
         # Build CTEs for all models with pushed-down filters
         cte_sqls = []
-        for model_name in all_models:
+        for model_name in sorted(all_models):
             model_filters = pushdown_filters.get(model_name, [])
             metric_filter_cols = metric_filter_cols_by_model.get(model_name)
             cte_sql = self._build_model_cte(
@@ -592,17 +592,17 @@ class SQLGenerator:
                                 collect_models_from_metric(metric.denominator)
                         elif metric.type == "derived" or (not metric.type and not metric.agg and metric.sql):
                             # Derived or untyped metrics with sql - auto-detect dependencies
-                            for ref_metric in metric.get_dependencies(self.graph):
+                            for ref_metric in sorted(metric.get_dependencies(self.graph)):
                                 collect_models_from_metric(ref_metric)
                             # Inline SQL expression metrics (e.g., SUM(orders.amount))
                             # can have empty dependencies, so also parse model refs directly.
                             if metric.sql:
-                                for model_name in self._extract_models_from_sql(metric.sql):
+                                for model_name in sorted(self._extract_models_from_sql(metric.sql)):
                                     add_model(model_name)
                         elif metric.agg and metric.sql:
                             # Graph-level simple aggregations can qualify fields
                             # (e.g., SUM(orders.amount)); include those models.
-                            for model_name in self._extract_models_from_sql(metric.sql):
+                            for model_name in sorted(self._extract_models_from_sql(metric.sql)):
                                 add_model(model_name)
                 except KeyError:
                     pass
@@ -803,7 +803,7 @@ class SQLGenerator:
                             add_sql_columns(aliased_sql, model_name)
                         # Also check dependencies
                         deps = measure.get_dependencies(self.graph, model_name)
-                        for dep in deps:
+                        for dep in sorted(deps):
                             if "." in dep:
                                 extract_from_measure_ref(dep)
                             else:
@@ -822,7 +822,7 @@ class SQLGenerator:
             # Extract from the metric's own filters
             if metric.filters:
                 deps = metric.get_dependencies(self.graph)
-                for dep in deps:
+                for dep in sorted(deps):
                     if "." in dep:
                         dep_model_name = dep.split(".")[0]
                         add_filter_columns(dep_model_name, metric.filters)
@@ -838,7 +838,7 @@ class SQLGenerator:
             # For derived metrics, check all dependencies
             elif metric.type == "derived" or (not metric.type and not metric.agg and metric.sql):
                 deps = metric.get_dependencies(self.graph)
-                for dep in deps:
+                for dep in sorted(deps):
                     if "." in dep:
                         extract_from_measure_ref(dep)
                     else:
@@ -1104,7 +1104,7 @@ class SQLGenerator:
                             not measure.type and not measure.agg and measure.sql
                         ):
                             # Derived/ratio measure - get its dependencies
-                            for dep in measure.get_dependencies(self.graph, ref_model_name):
+                            for dep in sorted(measure.get_dependencies(self.graph, ref_model_name)):
                                 collect_measures_from_metric(dep, visited)
                         elif measure.agg:
                             # Simple aggregation measure - add it
@@ -1127,7 +1127,7 @@ class SQLGenerator:
                         return
                     if measure.type in ("derived", "ratio") or (not measure.type and not measure.agg and measure.sql):
                         # Derived/ratio measure - get its dependencies
-                        for dep in measure.get_dependencies(self.graph, model_name):
+                        for dep in sorted(measure.get_dependencies(self.graph, model_name)):
                             collect_measures_from_metric(dep, visited)
                     elif measure.agg:
                         # Simple aggregation measure - add it
@@ -1138,7 +1138,7 @@ class SQLGenerator:
                         metric = self.graph.get_metric(metric_ref)
                         if metric:
                             # Use auto dependency detection with graph for resolution
-                            for dep in metric.get_dependencies(self.graph, model_name):
+                            for dep in sorted(metric.get_dependencies(self.graph, model_name)):
                                 collect_measures_from_metric(dep, visited)
                     except KeyError:
                         pass
@@ -1149,7 +1149,7 @@ class SQLGenerator:
         all_metric_columns = set(metric_filter_columns or set()) | extra_metric_sql_columns
 
         # Add raw columns referenced by inline aggregate SQL (if they are not dimensions/measures)
-        for col_name in all_metric_columns:
+        for col_name in sorted(all_metric_columns):
             if col_name in columns_added:
                 continue
             dim = model.get_dimension(col_name)
@@ -1172,7 +1172,7 @@ class SQLGenerator:
             if measure and measure.agg and col_name not in measures_needed:
                 measures_needed.add(col_name)
 
-        for measure_name in measures_needed:
+        for measure_name in sorted(measures_needed):
             measure = model.get_metric(measure_name)
             if measure:
                 # Build the base SQL expression for the measure
@@ -2164,7 +2164,8 @@ class SQLGenerator:
 
             # Sort dependencies by length descending to avoid partial matches
             # (e.g., replace "gross_revenue" before "revenue")
-            sorted_deps = sorted(dependencies, key=len, reverse=True)
+            # (ties broken by name so that the order does not depend on set iteration order)
+            sorted_deps = sorted(dependencies, key=lambda d: (-len(d), d))
 
             # Replace each metric reference with its SQL expression
             for metric_name in sorted_deps:
@@ -2529,7 +2530,7 @@ LEFT JOIN conversions ON {join_condition}{group_by}{order_clause}{limit_clause}
                 if not dependencies:
                     add_unique(base_metrics, canon_ref)
                     return
-                for dep in dependencies:
+                for dep in sorted(dependencies):
                     collect_leaf_base_metrics(dep, resolved_context, visited)
                 return
 
@@ -2673,7 +2674,9 @@ LEFT JOIN conversions ON {join_condition}{group_by}{order_clause}{limit_clause}
                     return metric_column(canon_ref)
 
                 formula = metric_obj.sql
-                dependencies = sorted(metric_obj.get_dependencies(self.graph, resolved_context), key=len, reverse=True)
+                dependencies = sorted(
+                    metric_obj.get_dependencies(self.graph, resolved_context), key=lambda d: (-len(d), d)
+                )
                 if not dependencies:
                     # Dependency-free expression metrics are already materialized
                     # in the inner query (when needed), so reuse the alias.
